@@ -12,6 +12,7 @@ pub mod helper;
 pub mod readercheck;
 pub mod refcpr;
 pub mod refdec;
+pub mod regress;
 pub mod render;
 pub mod total;
 pub mod tracker;
